@@ -19,7 +19,7 @@ func init() {
 		Explanation: "Decides the structural clauses behind 'the canary Ingress reflects the current step only': (R14.1) for each built-in ingress class script (parsed with the Lua parser the controller embeds; exhaustive over the scripts' constant keys) every annotation key the script may set conditionally is also cleared unconditionally at top level before it is set, or set unconditionally to a constant — so the result cannot depend on annotations left by an earlier step; assignments with computed keys are 'unrecognised' and fail; " +
 			"(R14.2) a path enters the canary Ingress only under Backend.Service.Name == stable Service, and its backend is re-targeted to the canary Service; (R14.3) every client write of the ingress provider targets the canary Ingress (built by buildCanaryIngress, whose name derives from canaryIngressName, or fetched under the canary name) — the stable Ingress is only read; " +
 			"(R14.4) optional blocks of the stable Ingress (rule.http, backend.service) are dereferenced only under a nil check; (R14.5) Finalise deletes the object fetched under the canary name and reports modified; (R14.6) the builder does not recycle a backing array across rules (no x[:0] re-slicing).",
-		NotDecided: "annotation values; history independence beyond R14.1 (a script could still read a key it does not set); behaviour of user-supplied scripts from the ConfigMap.",
+		NotDecided:  "annotation values; history independence beyond R14.1 (a script could still read a key it does not set); behaviour of user-supplied scripts from the ConfigMap.",
 		Assumptions: []string{"the result table of the class scripts is the global `annotations`"},
 	})
 }
